@@ -334,6 +334,7 @@ Proof.
   - destruct (alive s i) eqn:E; [apply evolves_add_ext; exact E|apply evolves_refl].
   - apply evolves_refl.
   - apply evolves_refl.
+  - apply evolves_refl.
 Qed.
 
 (* ------------------------------------------------------------------ Part C: the invariant *)
@@ -566,6 +567,7 @@ Proof.
       destruct Ha as [H|[H|H]]; [left; exact H|right; left; apply in_or_app; left; exact H|right; right; exact H].
   - exact I.
   - exact I.
+  - exact I.
 Qed.
 
 
@@ -661,6 +663,7 @@ Proof.
   - destruct (alive s i) eqn:E; [|apply ev2_refl]. apply ev2_same_user; [apply evolves_add_ext; exact E|reflexivity].
   - apply ev2_refl.
   - apply ev2_refl.
+  - apply ev2_refl.
 Qed.
 
 
@@ -670,12 +673,13 @@ Definition removes (self : Z) (x : act) (a : Z) : bool :=
   | RemoveSelf _ => self =? a
   | RemoveId i _ => i =? a
   | Nested _ _ _ => true          (* the inner activation may remove anybody *)
+  | TryNested _ _ _ => true
   | _ => false
   end.
 
 (* acts that can make the callback raise *)
 Definition may_raise (x : act) : bool :=
-  match x with Raise => true | Nested _ _ _ => true | _ => false end.
+  match x with Raise => true | Nested _ _ _ => true | TryNested _ _ _ => true | _ => false end.
 
 (* nobody's turn contains a removal of a *)
 Definition spares (sc : script) (a : Z) : Prop :=
@@ -712,6 +716,7 @@ Proof.
   - exact Ha.
   - destruct (alive s i); exact Ha.
   - exact Ha.
+  - discriminate.
   - discriminate.
 Qed.
 
@@ -850,6 +855,7 @@ Proof.
   - apply inv_bt_create_n; assumption.
   - apply bt_sweep. eapply bt_core; [| | |exact B]; reflexivity.
   - destruct (alive s i); [|exact B]. eapply bt_core; [| | |exact B]; reflexivity.
+  - exact B.
   - exact B.
   - exact B.
 Qed.
@@ -1307,44 +1313,60 @@ Proof.
   - intros self s x H. destruct x; simpl in *; congruence.
 Qed.
 
-Lemma ex1_basic sc2 self s a : (forall k r p, a <> Nested k r p) -> ex1 sc2 self s a = ex0 self s a.
-Proof. intros H. destruct a; try reflexivity. exfalso. eapply H. reflexivity. Qed.
-
-(* what the nested activation leaves behind, whatever it was *)
-Lemma ex1_nested_cases sc2 self s k r perm :
-  fst (ex1 sc2 self s (Nested k r perm)) = s \/
-  (exists l, fst (ex1 sc2 self s (Nested k r perm)) = set_nlog l s) \/
-  (exists snap s' log rz l, activate ex0 k perm sc2 snap s = Some (s', log, rz) /\
-                            fst (ex1 sc2 self s (Nested k r perm)) = set_nlog l s').
+(* what a nested activation leaves behind, whatever it was *)
+Lemma ex_next_nested_cases inner sc2 self s a k r perm :
+  a = Nested k r perm \/ a = TryNested k r perm ->
+  fst (ex_next inner sc2 self s a) = s \/
+  (exists l, fst (ex_next inner sc2 self s a) = set_nlog l s) \/
+  (exists snap s' log rz l, activate inner k perm sc2 snap s = Some (s', log, rz) /\
+                            fst (ex_next inner sc2 self s a) = set_nlog l s').
 Proof.
-  cbn [ex1]. destruct (lookup r (sets s)) as [snap|]; [|left; reflexivity].
-  destruct (activate ex0 k perm sc2 snap s) as [[[s' log] rz]|] eqn:E.
+  intros [->| ->]; cbn [ex_next]; (destruct (lookup r (sets s)) as [snap|]; [|left; reflexivity]);
+    destruct (activate inner k perm sc2 snap s) as [[[s' log] rz]|] eqn:E.
+  - right. right. exists snap, s', log, rz. eexists. split; [exact E|reflexivity].
+  - right. left. eexists. reflexivity.
   - right. right. exists snap, s', log, rz. eexists. split; [exact E|reflexivity].
   - right. left. eexists. reflexivity.
 Qed.
 
-Lemma good_ex1 sc2 : good_ex (ex1 sc2).
+Lemma ex_next_nested_props inner sc2 self s a k r perm :
+  good_ex inner -> a = Nested k r perm \/ a = TryNested k r perm ->
+  ev2 s (fst (ex_next inner sc2 self s a)) /\
+  (Inv s -> Inv (fst (ex_next inner sc2 self s a))) /\
+  (Inv s -> BT s -> BT (fst (ex_next inner sc2 self s a))).
 Proof.
-  destruct good_ex0 as (G1 & G2 & G3 & G4 & G5).
+  intros Gi Ha.
+  destruct (ex_next_nested_cases inner sc2 self s a k r perm Ha) as [Hc|[(l & Hc)|(snap & s' & log & rz & l & E & Hc)]];
+    rewrite Hc.
+  - split; [apply ev2_refl|split; [tauto|tauto]].
+  - split; [apply ev2_nlog|split; [apply inv_nlog|intros _; apply bt_nlog]].
+  - split; [eapply ev2_trans; [apply (ev2_activate inner Gi _ _ _ _ _ _ _ _ E)|apply ev2_nlog]|split].
+    + intros I. apply inv_nlog. apply (inv_activate inner Gi _ _ _ _ _ _ _ _ I E).
+    + intros I B. apply bt_nlog. apply (inv_bt_activate inner Gi _ _ _ _ _ _ _ _ I B E).
+Qed.
+
+Lemma good_ex_next inner sc2 : good_ex inner -> good_ex (ex_next inner sc2).
+Proof.
+  intros Gi. destruct good_ex0 as (G1 & G2 & G3 & G4 & G5).
   unfold good_ex. split; [|split; [|split; [|split]]].
   - intros self s a. destruct a; try apply G1.
-    destruct (ex1_nested_cases sc2 self s k r perm) as [->|[(l & ->)|(snap & s' & log & rz & l & E & ->)]].
-    + apply ev2_refl.
-    + apply ev2_nlog.
-    + eapply ev2_trans; [apply (ev2_activate ex0 good_ex0 _ _ _ _ _ _ _ _ E)|apply ev2_nlog].
-  - intros self s a I. destruct a; try (apply G2; exact I).
-    destruct (ex1_nested_cases sc2 self s k r perm) as [->|[(l & ->)|(snap & s' & log & rz & l & E & ->)]].
-    + exact I.
-    + apply inv_nlog. exact I.
-    + apply inv_nlog. apply (inv_activate ex0 good_ex0 _ _ _ _ _ _ _ _ I E).
-  - intros self s a I B. destruct a; try (apply G3; assumption).
-    destruct (ex1_nested_cases sc2 self s k r perm) as [->|[(l & ->)|(snap & s' & log & rz & l & E & ->)]].
-    + exact B.
-    + apply bt_nlog. exact B.
-    + apply bt_nlog. apply (inv_bt_activate ex0 good_ex0 _ _ _ _ _ _ _ _ I B E).
-  - intros self s x a Ha Hr. destruct x; try (apply G4; assumption). discriminate.
-  - intros self s x Hm. destruct x; try (apply G5; assumption). discriminate.
+    + apply (ex_next_nested_props inner sc2 self s _ k r perm Gi (or_introl eq_refl)).
+    + apply (ex_next_nested_props inner sc2 self s _ k r perm Gi (or_intror eq_refl)).
+  - intros self s a. destruct a; try apply G2.
+    + apply (ex_next_nested_props inner sc2 self s _ k r perm Gi (or_introl eq_refl)).
+    + apply (ex_next_nested_props inner sc2 self s _ k r perm Gi (or_intror eq_refl)).
+  - intros self s a. destruct a; try apply G3.
+    + apply (ex_next_nested_props inner sc2 self s _ k r perm Gi (or_introl eq_refl)).
+    + apply (ex_next_nested_props inner sc2 self s _ k r perm Gi (or_intror eq_refl)).
+  - intros self s x a Ha Hr. destruct x; try (apply G4; assumption); discriminate.
+  - intros self s x Hm. destruct x; try (apply G5; assumption); discriminate.
 Qed.
+
+Lemma good_ex1 sc2 : good_ex (ex1 sc2).
+Proof. apply good_ex_next. apply good_ex0. Qed.
+
+Lemma good_exN scs : good_ex (exN scs).
+Proof. induction scs as [|sc2 rest IH]; [apply good_ex0|apply good_ex_next; exact IH]. Qed.
 
 (* ------------------------------------------------------------------ Part L: histories *)
 Lemma inv_init : Inv init_st.
@@ -1364,6 +1386,69 @@ Lemma shuffle_then_do_unfold ex perm sc snap s res :
   shuffle_then_do ex perm sc snap s = Some res ->
   activate ex KDo [] sc (filter (alive s) perm) s = Some res.
 Proof. unfold shuffle_then_do, shuffle_new. destruct (is_perm perm snap); [tauto|discriminate]. Qed.
+
+(* --- groupby(result_type="list"): strong lists --- *)
+Lemma wf_frames_subset c s :
+  Wf s -> (forall a, In (Some a) c -> In (Some a) (cur s) \/ a < next_id s) -> Wf (set_frames c s).
+Proof.
+  intros W H. eapply wf_same_sets; try exact W; try reflexivity.
+  intros a [Ha|[Ha|Ha]].
+  - apply (wf_bound s a W). apply alive_spec. left. exact Ha.
+  - apply (wf_bound s a W). apply alive_spec. right. left. exact Ha.
+  - cbn [cur set_frames] in Ha. destruct (H a Ha) as [Hc|Hc]; [|exact Hc].
+    apply (wf_bound s a W). apply alive_spec. right. right. exact Hc.
+Qed.
+
+Lemma inv_bt_hold l s : Inv s -> BT s -> (forall a, In a l -> a < next_id s) -> Inv (hold l s) /\ BT (hold l s).
+Proof.
+  intros [W L] B Hb. split; [split|].
+  - apply wf_frames_subset; [exact W|]. intros a Ha. apply in_app_or in Ha. destruct Ha as [Ha|Ha]; [|left; exact Ha].
+    right. apply in_map_iff in Ha. destruct Ha as (x & Hx & Hin). inversion Hx; subst. apply Hb. exact Hin.
+  - eapply live_same_sets; [exact L|reflexivity|]. intros a Ha. apply alive_spec in Ha. apply alive_spec.
+    unfold refs in *. cbn [reg ext cur hold set_frames].
+    destruct Ha as [Ha|[Ha|Ha]]; [left; exact Ha|right; left; exact Ha|right; right; apply in_or_app; right; exact Ha].
+  - eapply bt_core; [| | |exact B]; reflexivity.
+Qed.
+
+Lemma in_skipn {A} (x : A) n l : In x (skipn n l) -> In x l.
+Proof.
+  revert l. induction n as [|n IH]; intros l; simpl; [tauto|]. destruct l as [|y t]; [tauto|].
+  intros H. right. apply IH. exact H.
+Qed.
+
+Lemma inv_bt_release n s : Inv s -> BT s -> Inv (sweep (release n s)) /\ BT (sweep (release n s)).
+Proof.
+  intros [W L] B. split; [split; [|apply live_sweep]|].
+  - apply wf_sweep. apply wf_frames_subset; [exact W|]. intros a Ha. left. eapply in_skipn. exact Ha.
+  - apply bt_sweep. eapply bt_core; [| | |exact B]; reflexivity.
+Qed.
+
+Lemma inv_bt_visit_lists ex (G : good_ex ex) sc gs : forall s s' logs rz,
+  Inv s -> BT s -> visit_lists ex sc gs s = (s', logs, rz) -> Inv s' /\ BT s'.
+Proof.
+  induction gs as [|[key g] gs IH]; intros s s' logs rz I B; simpl.
+  - intros H. inversion H; subst. split; assumption.
+  - destruct (visit ex sc g (push_frame s)) as [[s1 log1] rz1] eqn:E.
+    assert (Inv (sweep (pop_frame s1)) /\ BT (sweep (pop_frame s1))) as [I1 B1].
+    { assert (activate ex KDo [] sc g s = Some (sweep (pop_frame s1), log1, rz1)) as Ha.
+      { unfold activate. cbn [visit_order]. rewrite E. reflexivity. }
+      apply (inv_bt_activate ex G _ _ _ _ _ _ _ _ I B Ha). }
+    destruct rz1; [intros H; inversion H; subst; split; assumption|].
+    destruct (visit_lists ex sc gs (sweep (pop_frame s1))) as [[s2 logs2] rz2] eqn:E2.
+    intros H. inversion H; subst. eapply IH; eassumption.
+Qed.
+
+Lemma inv_bt_group_lists ex (G : good_ex ex) sc m members s s' logs rz :
+  Inv s -> BT s -> (forall a, In a members -> a < next_id s) ->
+  group_lists ex sc m members s = (s', logs, rz) -> Inv s' /\ BT s'.
+Proof.
+  intros I B Hb. unfold group_lists.
+  destruct (visit_lists ex sc (groups_of m members) (hold members s)) as [[s1 logs1] rz1] eqn:E.
+  intros H. inversion H; subst.
+  destruct (inv_bt_hold members s I B Hb) as [Ih Bh].
+  destruct (inv_bt_visit_lists ex G sc _ _ _ _ _ Ih Bh E) as [I1 B1].
+  apply inv_bt_release; assumption.
+Qed.
 
 Lemma inv_bt_step s o : Inv s -> BT s -> Inv (fst (step s o)) /\ BT (fst (step s o)).
 Proof.
@@ -1399,16 +1484,21 @@ Proof.
         pose proof (B2 a Ha) as Hh. unfold class_of in Hh. rewrite Hh. reflexivity.
   - split; assumption.
   - destruct (lookup s0 (sets s1)) as [snap|]; [|split; assumption].
-    destruct (activate (ex1 sc2) k perm sc snap s1) as [[[s' log] rz]|] eqn:E; [|split; assumption].
-    unfold obs_activation. cbn [fst]. apply (inv_bt_activate _ (good_ex1 sc2) _ _ _ _ _ _ _ _ I B E).
+    destruct (activate (exN scs) k perm sc snap s1) as [[[s' log] rz]|] eqn:E; [|split; assumption].
+    unfold obs_activation. cbn [fst]. apply (inv_bt_activate _ (good_exN scs) _ _ _ _ _ _ _ _ I B E).
   - destruct (lookup s0 (sets s1)) as [snap|]; [|split; assumption].
-    destruct (shuffle_then_do (ex1 sc2) perm sc snap s1) as [[[s' log] rz]|] eqn:E; [|split; assumption].
+    destruct (shuffle_then_do (exN scs) perm sc snap s1) as [[[s' log] rz]|] eqn:E; [|split; assumption].
     unfold obs_activation. cbn [fst]. apply shuffle_then_do_unfold in E.
-    apply (inv_bt_activate _ (good_ex1 sc2) _ _ _ _ _ _ _ _ I B E).
+    apply (inv_bt_activate _ (good_exN scs) _ _ _ _ _ _ _ _ I B E).
   - destruct (lookup s0 (sets s1)) as [members|]; [|split; assumption].
     destruct (m <=? 0); [split; assumption|].
-    destruct (visit_groups (ex1 sc2) k sc (groups_of m members) perms s1) as [[[s' logs] rz]|] eqn:E; [|split; assumption].
-    cbn [fst]. apply (inv_bt_visit_groups _ (good_ex1 sc2) _ _ _ _ _ _ _ _ I B E).
+    destruct (visit_groups (exN scs) k sc (groups_of m members) perms s1) as [[[s' logs] rz]|] eqn:E; [|split; assumption].
+    cbn [fst]. apply (inv_bt_visit_groups _ (good_exN scs) _ _ _ _ _ _ _ _ I B E).
+  - destruct (lookup s0 (sets s1)) as [members|] eqn:El; [|split; assumption].
+    destruct (m <=? 0); [split; assumption|].
+    destruct (group_lists (exN scs) sc m members s1) as [[s' logs] rz] eqn:E. cbn [fst].
+    apply (inv_bt_group_lists _ (good_exN scs) sc m members s1 s' logs rz I B); [|exact E].
+    intros a Ha. destruct I as [(_ & _ & W3 & _) _]. apply (W3 s0 members El). exact Ha.
 Qed.
 
 (* the state reached by a history *)
@@ -1717,3 +1807,124 @@ Proof.
   - apply (nodup_flat_logs m); [exact Hnk|]. intros key l Hin. destruct (Hok key l Hin) as (H1 & H2 & _).
     split; [exact H1|]. intros a Ha. specialize (H2 a Ha). apply filter_In in H2. apply Z.eqb_eq. apply H2.
 Qed.
+
+(* ------------------------------------------------------------------ Part M: frames; strong lists *)
+(* the code run inside a callback leaves the stack of activation frames as it found it *)
+Definition keeps_frames (ex : executor) : Prop := forall self s a, cur (fst (ex self s a)) = cur s.
+
+Lemma cur_do_remove a keep s : cur (do_remove a keep s) = cur s.
+Proof.
+  unfold do_remove. destruct (alive s a); [|reflexivity].
+  destruct (deregister_same a s) as (_ & _ & Hc). destruct keep; cbn [cur sweep set_sets set_ext]; exact Hc.
+Qed.
+
+Lemma cur_create_n n c keep : forall s, cur (create_n n c keep s) = cur s.
+Proof. induction n as [|n IH]; intros s; simpl; [reflexivity|]. rewrite IH. reflexivity. Qed.
+
+Lemma cur_exec_act self s a : cur (exec_act self s a) = cur s.
+Proof.
+  destruct a; simpl; try reflexivity.
+  - apply cur_do_remove.
+  - apply cur_do_remove.
+  - apply cur_create_n.
+  - destruct (alive s i); reflexivity.
+Qed.
+
+Lemma keeps_ex0 : keeps_frames ex0.
+Proof. intros self s a. apply cur_exec_act. Qed.
+
+Lemma run_acts_cur ex self l : keeps_frames ex -> forall s, cur (fst (run_acts ex self l s)) = cur s.
+Proof.
+  intros K. induction l as [|a t IH]; intros s; simpl; [reflexivity|].
+  pose proof (K self s a) as Ha. destruct (ex self s a) as [s1 rz]. cbn [fst] in Ha.
+  destruct rz; [exact Ha|]. rewrite IH. exact Ha.
+Qed.
+
+Lemma visit1_tl ex sc r s : keeps_frames ex -> tl (cur (fst (visit1 ex sc r s))) = tl (cur s).
+Proof.
+  intros K. unfold visit1. destruct (alive s r); [|reflexivity]. rewrite (run_acts_cur ex r _ K). reflexivity.
+Qed.
+
+Lemma visit_tl ex sc order s : keeps_frames ex -> tl (cur (vst (visit ex sc order s))) = tl (cur s).
+Proof.
+  intros K. apply (visit_ind_state ex (fun s' => tl (cur s') = tl (cur s))); [|reflexivity].
+  intros r s' H. rewrite (visit1_tl ex sc r s' K). exact H.
+Qed.
+
+Lemma activate_cur ex k perm sc snap s s' log rz :
+  keeps_frames ex -> activate ex k perm sc snap s = Some (s', log, rz) -> cur s' = cur s.
+Proof.
+  intros K H. apply activate_spec in H. destruct H as (order & _ & _ & _ & ->).
+  cbn [cur sweep set_sets pop_frame set_frames]. rewrite (visit_tl ex sc order _ K). reflexivity.
+Qed.
+
+Lemma keeps_ex_next inner sc2 : keeps_frames inner -> keeps_frames (ex_next inner sc2).
+Proof.
+  intros K self s a. destruct a; try apply keeps_ex0.
+  - destruct (ex_next_nested_cases inner sc2 self s _ k r perm (or_introl eq_refl))
+      as [Hc|[(l & Hc)|(snap & s' & log & rz & l & E & Hc)]]; rewrite Hc; try reflexivity.
+    cbn [cur set_nlog]. apply (activate_cur inner _ _ _ _ _ _ _ _ K E).
+  - destruct (ex_next_nested_cases inner sc2 self s _ k r perm (or_intror eq_refl))
+      as [Hc|[(l & Hc)|(snap & s' & log & rz & l & E & Hc)]]; rewrite Hc; try reflexivity.
+    cbn [cur set_nlog]. apply (activate_cur inner _ _ _ _ _ _ _ _ K E).
+Qed.
+
+Lemma keeps_exN scs : keeps_frames (exN scs).
+Proof. induction scs as [|sc2 rest IH]; [apply keeps_ex0|apply keeps_ex_next; exact IH]. Qed.
+
+(* agents held by a strong container (deeper in the frame stack) are alive at their turn: unless an
+   exception ends the loop, every one of them is called, whatever the callbacks remove *)
+Lemma visit_held ex sc order : keeps_frames ex -> forall s,
+  (forall a, In a order -> In (Some a) (tl (cur s))) ->
+  vrz (visit ex sc order s) = false -> vlog (visit ex sc order s) = order.
+Proof.
+  intros K. induction order as [|r t IH]; intros s Hh Hz; [reflexivity|].
+  rewrite visit_cons in *.
+  assert (alive s r = true) as Ha.
+  { apply alive_spec. right. right. apply in_tl. apply Hh. left. reflexivity. }
+  rewrite Ha in *. destruct (snd (visit1 ex sc r s)); [discriminate Hz|].
+  unfold vlog, vrz in *. cbn [fst snd] in *. f_equal. apply IH; [|exact Hz].
+  intros a Hin. rewrite (visit1_tl ex sc r s K). apply Hh. right. exact Hin.
+Qed.
+
+Lemma visit_lists_all ex sc gs : keeps_frames ex -> forall s s' logs rz,
+  (forall key g a, In (key, g) gs -> In a g -> In (Some a) (cur s)) ->
+  visit_lists ex sc gs s = (s', logs, rz) -> rz = false -> logs = gs.
+Proof.
+  intros K. induction gs as [|[key g] gs IH]; intros s s' logs rz Hh; simpl.
+  - intros H _. inversion H. reflexivity.
+  - destruct (visit ex sc g (push_frame s)) as [[s1 log1] rz1] eqn:E.
+    destruct rz1; [intros H Hz; inversion H; subst; discriminate|].
+    destruct (visit_lists ex sc gs (sweep (pop_frame s1))) as [[s2 logs2] rz2] eqn:E2.
+    intros H Hz. inversion H; subst. f_equal.
+    + f_equal. pose proof (visit_held ex sc g K (push_frame s)) as Hv. rewrite E in Hv.
+      apply Hv; [|reflexivity]. intros a Ha. cbn [cur push_frame set_frames tl]. apply (Hh key g a); [left; reflexivity|exact Ha].
+    + eapply IH; [|exact E2|reflexivity]. intros k0 g0 a Hin Ha.
+      cbn [cur sweep set_sets pop_frame set_frames].
+      pose proof (visit_tl ex sc g (push_frame s) K) as Ht. rewrite E in Ht. unfold vst in Ht. cbn [fst] in Ht.
+      rewrite Ht. cbn [cur push_frame set_frames tl]. apply (Hh k0 g0 a); [right; exact Hin|exact Ha].
+Qed.
+
+(* groupby(result_type="list").do/map(callable): unless a callback raises, every member at groupby time
+   is reached exactly once, group by group in first-seen key order - removed or not *)
+Lemma group_lists_all scs sc m members s s' logs :
+  group_lists (exN scs) sc m members s = (s', logs, false) -> logs = groups_of m members.
+Proof.
+  unfold group_lists.
+  destruct (visit_lists (exN scs) sc (groups_of m members) (hold members s)) as [[s1 logs1] rz1] eqn:E.
+  intros H. inversion H; subst.
+  eapply (visit_lists_all (exN scs) sc _ (keeps_exN scs)); [|exact E|reflexivity].
+  intros key g a Hin Ha. rewrite (groups_of_spec m members key g Hin) in Ha. apply filter_In in Ha.
+  cbn [cur hold set_frames]. apply in_or_app. left. apply in_map. apply Ha.
+Qed.
+
+Lemma try_nested_never_raises inner sc2 self s k r perm :
+  snd (ex_next inner sc2 self s (TryNested k r perm)) = false.
+Proof.
+  cbn [ex_next]. destruct (lookup r (sets s)) as [snap|]; [|reflexivity].
+  destruct (activate inner k perm sc2 snap s) as [[[s' log] rz]|]; reflexivity.
+Qed.
+
+Lemma activate_frames_restored scs k perm sc snap s s' log rz :
+  activate (exN scs) k perm sc snap s = Some (s', log, rz) -> cur s' = cur s.
+Proof. apply activate_cur. apply keeps_exN. Qed.
